@@ -72,8 +72,12 @@ Definition alias_str (t : option string) : string := match t with None => EmptyS
 
 Definition named_tags (l : list (string * option (option string))) : list (string * string) :=
   flat_map (fun pt => match snd pt with Some (Some a) => [(fst pt, a)] | _ => [] end) l.
-Definition root_tags (l : list (string * option (option string))) : list string :=
+(* the paths of the specs with a bare tag, one entry per spec *)
+Definition all_root_tags (l : list (string * option (option string))) : list string :=
   flat_map (fun pt => match snd pt with Some None => [fst pt] | _ => [] end) l.
+(* the root imports of a package: every path once, however many specs carry a bare tag for it *)
+Definition root_tags (l : list (string * option (option string))) : list string :=
+  nodup string_dec (all_root_tags l).
 
 (* the named imports of a package: every (path, alias) pair once, however many specs carry it *)
 Definition pair_dec (a b : string * string) : {a = b} + {a <> b}.
@@ -244,10 +248,10 @@ Lemma fold_left_ext : forall {A B} (f g : A -> B -> A) (l : list B) (a : A),
   (forall a x, f a x = g a x) -> fold_left f l a = fold_left g l a.
 Proof. intros A B f g l; induction l as [|x l IH]; intros a H; simpl; [reflexivity|]. rewrite H. now apply IH. Qed.
 
-Lemma scan_flat : forall gip put files,
-  scan gip put files = fold_left (scan_step gip put) (specs_of files) ([], []).
+Lemma scan_flat : forall gip put rput files,
+  scan gip put rput files = fold_left (scan_step gip put rput) (specs_of files) ([], []).
 Proof.
-  intros gip put files; unfold scan, specs_of.
+  intros gip put rput files; unfold scan, specs_of.
   rewrite fold_left_flat_map. apply fold_left_ext; intros a f.
   unfold scan_file. rewrite fold_left_flat_map. apply fold_left_ext; intros a' gen.
   unfold scan_decl. rewrite fold_left_map. apply fold_left_ext; intros a'' s.
@@ -266,17 +270,20 @@ Definition put_all (l : list (string * string)) (m : list (string * string)) : l
 
 Definition tags_of_specs (l : list impspec) := map (fun s => (is_path s, tag_rule s)) l.
 
-Lemma scan_steps : forall l m r,
-  fold_left (scan_step get_import_path set_put) l (m, r) =
-  (put_all (named_tags (tags_of_specs l)) m, r ++ root_tags (tags_of_specs l)).
+Definition rput_all (rput : string -> list string -> list string) (l : list string) (r : list string) : list string :=
+  fold_left (fun r p => rput p r) l r.
+
+Lemma scan_steps : forall rput l m r,
+  fold_left (scan_step get_import_path set_put rput) l (m, r) =
+  (put_all (named_tags (tags_of_specs l)) m, rput_all rput (all_root_tags (tags_of_specs l)) r).
 Proof.
-  induction l as [|s l IH]; intros m r; simpl.
-  - now rewrite app_nil_r.
+  intros rput. induction l as [|s l IH]; intros m r; simpl.
+  - reflexivity.
   - unfold scan_step at 2. pose proof (tagged_is_rule s) as T. unfold tagged in T.
     destruct (get_import_path s) as [[p a]|] eqn:G; simpl in T.
     + apply gip_path in G as ->.
       destruct (is_empty a) eqn:E; rewrite <- T; simpl.
-      * rewrite IH. now rewrite <- app_assoc.
+      * rewrite IH. reflexivity.
       * rewrite IH. reflexivity.
     + rewrite <- T; simpl. apply IH.
 Qed.
@@ -345,6 +352,50 @@ Proof.
     + apply (Permutation_in _ (Permutation_sym (sort_pairs_perm _))). apply put_all_in. auto.
 Qed.
 
+(* ---------------------------------------------------------------- the root imports: every path once *)
+Lemma root_put_in : forall p r x, In x (root_put p r) <-> x = p \/ In x r.
+Proof.
+  intros p r x. unfold root_put. destruct (existsb (String.eqb p) r) eqn:E.
+  - apply existsb_exists in E. destruct E as (y & I & E). apply String.eqb_eq in E. subst y.
+    split; [auto|intros [->|H]; auto].
+  - rewrite in_app_iff; simpl. intuition.
+Qed.
+
+Lemma root_put_nodup : forall p r, NoDup r -> NoDup (root_put p r).
+Proof.
+  intros p r H. unfold root_put. destruct (existsb (String.eqb p) r) eqn:E; [exact H|].
+  assert (N : ~ In p r).
+  { intros I. assert (existsb (String.eqb p) r = true) by (apply existsb_exists; exists p; split; [exact I|apply String.eqb_refl]). congruence. }
+  eapply Permutation_NoDup; [apply Permutation_cons_append|]. now constructor.
+Qed.
+
+Lemma rput_all_in : forall l r x, In x (rput_all root_put l r) <-> In x l \/ In x r.
+Proof.
+  induction l as [|p l IH]; intros r x; simpl; [intuition|].
+  unfold rput_all in *; simpl. rewrite IH, root_put_in. intuition.
+Qed.
+
+Lemma rput_all_nodup : forall l r, NoDup r -> NoDup (rput_all root_put l r).
+Proof.
+  induction l as [|p l IH]; intros r H; simpl; [exact H|].
+  unfold rput_all in *; simpl. apply IH, root_put_nodup, H.
+Qed.
+
+(* the root imports that are visited: every path with a bare tag exactly once *)
+Lemma roots_visited : forall l, Permutation (rput_all root_put l []) (nodup string_dec l).
+Proof.
+  intros l. apply NoDup_Permutation.
+  - apply rput_all_nodup. constructor.
+  - apply NoDup_nodup.
+  - intros x. rewrite nodup_In, rput_all_in. simpl. intuition.
+Qed.
+
+Lemma rput_all_append : forall l r, rput_all root_append l r = r ++ l.
+Proof.
+  induction l as [|p l IH]; intros r; simpl; [now rewrite app_nil_r|].
+  unfold rput_all in *; simpl. rewrite IH. unfold root_append. now rewrite <- app_assoc.
+Qed.
+
 (* the tree before fix 5f65f03: the map keyed by the path *)
 Lemma map_set_perm : forall k v m, ~ In k (map fst m) -> Permutation (map_set k v m) ((k, v) :: m).
 Proof.
@@ -401,10 +452,10 @@ Qed.
 
 Lemma contrib_split : forall l,
   Permutation (flat_map contrib l)
-              (flat_map contribN (named_tags l) ++ flat_map (fun p => contribN (p, EmptyString)) (root_tags l)).
+              (flat_map contribN (named_tags l) ++ flat_map (fun p => contribN (p, EmptyString)) (all_root_tags l)).
 Proof.
   induction l as [|[p t] l IH]; simpl; [apply Permutation_refl|].
-  unfold named_tags, root_tags in *; simpl.
+  unfold named_tags, all_root_tags in *; simpl.
   destruct t as [[a|]|]; simpl.
   - unfold contrib at 1; simpl. rewrite ?app_nil_r, <- ?app_assoc. now apply Permutation_app_head.
   - unfold contrib at 1; simpl. rewrite ?app_nil_r.
@@ -420,10 +471,10 @@ Proof.
   - right. apply IH, H.
 Qed.
 
-Lemma root_in_tags : forall l p, In p (root_tags l) -> In (p, Some None) l.
+Lemma all_root_in_tags : forall l p, In p (all_root_tags l) -> In (p, Some None) l.
 Proof.
   induction l as [|[p' t] l IH]; intros p H; [contradiction|].
-  unfold root_tags in H; simpl in H. apply in_app_or in H as [H|H].
+  unfold all_root_tags in H; simpl in H. apply in_app_or in H as [H|H].
   - destruct t as [[a'|]|]; simpl in H; try contradiction. destruct H as [H|[]]. subst. left; reflexivity.
   - right. apply IH, H.
 Qed.
@@ -436,16 +487,23 @@ Proof.
   - right. apply IH, I.
 Qed.
 
-Lemma in_root_tags : forall l p, In (p, Some None) l -> In p (root_tags l).
+Lemma root_in_tags : forall l p, In p (root_tags l) -> In (p, Some None) l.
+Proof. intros l p H. unfold root_tags in H. apply nodup_In in H. now apply all_root_in_tags. Qed.
+
+Lemma in_all_root_tags : forall l p, In (p, Some None) l -> In p (all_root_tags l).
 Proof.
   induction l as [|[p' t'] l IH]; intros p I; [contradiction|].
-  unfold root_tags; simpl. apply in_or_app. destruct I as [I|I].
+  unfold all_root_tags; simpl. apply in_or_app. destruct I as [I|I].
   - inversion I; subst. left; simpl; auto.
   - right. apply IH, I.
 Qed.
 
+Lemma in_root_tags : forall l p, In (p, Some None) l -> In p (root_tags l).
+Proof. intros l p I. unfold root_tags. apply nodup_In. now apply in_all_root_tags. Qed.
+
 (* what the tagged specs of a package contribute together: every (path, alias) pair once (a pair
-   repeated in several specs is one import), every root import *)
+   repeated in several specs is one import), every root import once (a package imported bare by
+   several specs is one import) *)
 Definition contributions (l : list (string * option (option string))) : list func :=
   flat_map contribN (distinct (named_tags l)) ++ flat_map (fun p => contribN (p, EmptyString)) (root_tags l).
 
@@ -455,31 +513,31 @@ Theorem exposes_exactly : forall files,
                Permutation (exposed imps) (contributions (tags files)).
 Proof.
   intros files RES.
-  unfold set_imports, set_imports_gen. rewrite scan_flat, scan_steps. simpl app.
+  unfold set_imports, set_imports_gen. rewrite scan_flat, scan_steps.
   change (tags_of_specs (specs_of files)) with (tags files).
-  set (named := named_tags (tags files)) in *. set (roots := root_tags (tags files)).
-  pose proof (named_visited named) as P.
+  set (named := named_tags (tags files)) in *. set (roots := all_root_tags (tags files)).
+  pose proof (named_visited named) as P. pose proof (roots_visited roots) as P2.
   destruct (collect_ok (sort_pairs (put_all named []))) as (imps1 & E1 & X1).
   { intros pa I. apply (Permutation_in _ P) in I. unfold distinct in I. apply nodup_In in I.
     destruct pa as [p a]. apply named_in_tags in I. eapply RES; eauto. }
-  destruct (collect_root_ok roots) as (imps2 & E2 & X2).
-  { intros p I. apply root_in_tags in I. eapply RES; eauto. }
+  destruct (collect_root_ok (rput_all root_put roots [])) as (imps2 & E2 & X2).
+  { intros p I. apply rput_all_in in I as [I|[]]. apply all_root_in_tags in I. eapply RES; eauto. }
   rewrite E1, E2. eexists; split; [reflexivity|].
-  unfold exposed, contributions in *. rewrite flat_map_app, X1, X2.
-  apply Permutation_app_tail. now apply Permutation_flat_map.
+  unfold exposed, contributions, root_tags in *. rewrite flat_map_app, X1, X2.
+  apply Permutation_app; now apply Permutation_flat_map.
 Qed.
 
 (* no (path, alias) pair tagged twice: the sum of the contributions of the single specs *)
 Theorem exposes_exactly_distinct : forall files,
-  NoDup (named_tags (tags files)) ->
+  NoDup (named_tags (tags files)) -> NoDup (all_root_tags (tags files)) ->
   (forall p t, In (p, Some t) (tags files) -> golist dir p <> None) ->
   exists imps, set_imports golist dir files = Some imps /\
                Permutation (exposed imps) (flat_map contrib (tags files)).
 Proof.
-  intros files ND RES. destruct (exposes_exactly files RES) as (imps & E & P).
+  intros files ND NR RES. destruct (exposes_exactly files RES) as (imps & E & P).
   exists imps; split; [exact E|].
-  eapply Permutation_trans; [exact P|]. unfold contributions, distinct.
-  rewrite (nodup_fixed_point pair_dec ND). apply Permutation_sym, contrib_split.
+  eapply Permutation_trans; [exact P|]. unfold contributions, distinct, root_tags.
+  rewrite (nodup_fixed_point pair_dec ND), (nodup_fixed_point string_dec NR). apply Permutation_sym, contrib_split.
 Qed.
 
 Theorem lookup_error : forall files p t,
@@ -487,9 +545,9 @@ Theorem lookup_error : forall files p t,
   set_imports golist dir files = None.
 Proof.
   intros files p t I G.
-  unfold set_imports, set_imports_gen. rewrite scan_flat, scan_steps. simpl app.
+  unfold set_imports, set_imports_gen. rewrite scan_flat, scan_steps.
   change (tags_of_specs (specs_of files)) with (tags files).
-  set (named := named_tags (tags files)) in *. set (roots := root_tags (tags files)).
+  set (named := named_tags (tags files)) in *. set (roots := all_root_tags (tags files)).
   assert (CN : forall l, In p (map fst l) -> collect (fun pa => get_import_from golist dir (fst pa) (snd pa)) l = None).
   { induction l as [|pa l IH]; simpl; [contradiction|]. intros [H|H].
     - unfold get_import_from. rewrite H, G. reflexivity.
@@ -504,18 +562,18 @@ Proof.
     apply (in_map fst) with (x := (p, a)).
     apply (Permutation_in _ (Permutation_sym (sort_pairs_perm _))). apply put_all_in. auto.
   - destruct (collect _ (sort_pairs (put_all named []))); [|reflexivity].
-    rewrite CR; [reflexivity|]. apply in_root_tags, I.
+    rewrite CR; [reflexivity|]. apply rput_all_in. left. apply in_all_root_tags, I.
 Qed.
 
 Theorem untagged_nothing : forall files,
   (forall s, In s (specs_of files) -> tag_rule s = None) ->
   set_imports golist dir files = Some [].
 Proof.
-  intros files H. unfold set_imports, set_imports_gen. rewrite scan_flat, scan_steps. simpl app.
-  assert (N : named_tags (tags_of_specs (specs_of files)) = [] /\ root_tags (tags_of_specs (specs_of files)) = []).
+  intros files H. unfold set_imports, set_imports_gen. rewrite scan_flat, scan_steps.
+  assert (N : named_tags (tags_of_specs (specs_of files)) = [] /\ all_root_tags (tags_of_specs (specs_of files)) = []).
   { induction (specs_of files) as [|s l IH]; [split; reflexivity|].
     destruct IH as [IH1 IH2]; [intros; apply H; simpl; auto|].
-    unfold named_tags, root_tags in *; simpl. rewrite (H s), IH1, IH2 by (simpl; auto). simpl; auto. }
+    unfold named_tags, all_root_tags in *; simpl. rewrite (H s), IH1, IH2 by (simpl; auto). simpl; auto. }
   destruct N as [-> ->]. reflexivity.
 Qed.
 
@@ -557,13 +615,13 @@ Proof.
 Qed.
 
 Theorem shared_alias : forall files a,
-  NoDup (named_tags (tags files)) ->
+  NoDup (named_tags (tags files)) -> NoDup (all_root_tags (tags files)) ->
   (forall p t, In (p, Some t) (tags files) -> golist dir p <> None) ->
   exists imps, set_imports golist dir files = Some imps /\
                Permutation (filter (has_alias a) (exposed imps))
                            (flat_map contrib (filter (tag_has_alias a) (tags files))).
 Proof.
-  intros files a ND RES. destruct (exposes_exactly_distinct files ND RES) as (imps & E & P).
+  intros files a ND NR RES. destruct (exposes_exactly_distinct files ND NR RES) as (imps & E & P).
   exists imps; split; [exact E|]. rewrite <- filter_contrib. now apply filter_perm.
 Qed.
 End Look.
@@ -579,7 +637,7 @@ Theorem default_aliases_ignored : forall g g' dir files,
   set_imports g dir files = set_imports g' dir files.
 Proof.
   intros g g' dir files H. unfold set_imports, set_imports_gen.
-  destruct (scan get_import_path set_put files) as [m r].
+  destruct (scan get_import_path set_put root_put files) as [m r].
   assert (E : forall p a, get_import_from g dir p a = get_import_from g' dir p a).
   { intros p a. unfold get_import_from. specialize (H p).
     destruct (g dir p) as [pk|], (g' dir p) as [pk'|]; simpl in H; try discriminate; [|reflexivity].
@@ -626,11 +684,13 @@ Definition w_files : list file :=
     [ {| gd_doc := Some ["// the same package under a second alias"; "// mage:import ci"]; gd_lparen := false;
          gd_specs := [ {| is_doc := None; is_comment := None; is_path := "ex/imp/b"; is_raw := false |} ] |};
       {| gd_doc := None; gd_lparen := false;
-         gd_specs := [ {| is_doc := None; is_comment := Some ["// mage:import Tools"]; is_path := "ex/imp/b"; is_raw := false |} ] |} ] ].
+         gd_specs := [ {| is_doc := None; is_comment := Some ["// mage:import Tools"]; is_path := "ex/imp/b"; is_raw := false |} ] |};
+      {| gd_doc := Some ["// the same package bare once more"; "//mage:import"]; gd_lparen := false;
+         gd_specs := [ {| is_doc := None; is_comment := None; is_path := "ex/imp/a"; is_raw := false |} ] |} ] ].
 
 Definition w_tags : list (string * option (option string)) :=
   [("ex/imp/a", Some None); ("ex/imp/b", Some (Some "tools")); ("ex/imp/c", Some (Some "tools")); ("ex/imp/d", None);
-   ("ex/imp/b", Some (Some "ci")); ("ex/imp/b", Some (Some "tools"))]%string.
+   ("ex/imp/b", Some (Some "ci")); ("ex/imp/b", Some (Some "tools")); ("ex/imp/a", Some None)]%string.
 
 Lemma nonvacuous_c19 :
   tags w_files = w_tags /\
@@ -686,4 +746,26 @@ Lemma raw_path_before_repair_refuted :
 Proof.
   exists {| is_doc := Some ["// mage:import one"]; is_comment := None; is_path := "ex/imp/a"; is_raw := true |}.
   repeat split; vm_compute; reflexivity.
+Qed.
+
+(* before fix 4a102aa every bare spec was appended to rootImports: the same package imported bare by
+   two magefiles was imported twice, every target of it twice under the same name (what the
+   duplicate check then rejects: "lint" target has multiple definitions: p.Lint, p.Lint) *)
+Definition w_bare_twice : list file :=
+  [ [ {| gd_doc := Some ["// mage:import"]; gd_lparen := false;
+         gd_specs := [ {| is_doc := None; is_comment := None; is_path := "ex/imp/a"; is_raw := false |} ] |} ];
+    [ {| gd_doc := Some ["// mage:import"]; gd_lparen := false;
+         gd_specs := [ {| is_doc := None; is_comment := None; is_path := "ex/imp/a"; is_raw := false |} ] |} ] ].
+
+Lemma bare_twice_before_repair_refuted :
+  exists g dir files,
+    tags files = [("ex/imp/a", Some None); ("ex/imp/a", Some None)]%string /\
+    g dir "ex/imp/a"%string <> None /\
+    option_map (fun imps => map target_name (exposed imps)) (set_imports g dir files) =
+      Some ["Docker:Push"; "Build"]%string /\
+    option_map (fun imps => map target_name (exposed imps)) (set_imports_roots_appended g dir files) =
+      Some ["Docker:Push"; "Build"; "Docker:Push"; "Build"]%string.
+Proof.
+  exists w_golist, "build"%string, w_bare_twice. split; [vm_compute; reflexivity|].
+  split; [vm_compute; discriminate|]. split; vm_compute; reflexivity.
 Qed.
